@@ -4,9 +4,9 @@ set -eu
 P=$1; S=$2; WT=$3
 D=/verif/seeded/$P-$S
 mkdir -p $D
-cp /tmp/seed/$P.patch $D/patch.diff
+cp $(dirname $WT)/$P.patch $D/patch.diff
 cp $WT/seed_demo.sh $D/demo.sh
 [ -d $WT/seed_demo ] && cp -r $WT/seed_demo $D/seed_demo
 git -C /repo worktree remove --force $WT
-rm -rf /tmp/seed/bin-$P
+rm -rf $(dirname $WT)/bin-$P
 ls $D
